@@ -590,85 +590,100 @@ Definition conf_delete (kind name : string) (s : st) : st :=
   end.
 
 (* ---------- usage: computed at commit from the transaction's change set ---------- *)
+(* updateUsage walks the change set once and accumulates a delta per usage id; the model computes,
+   for each usage id, the sum over the change set of what each change adds to that id (the same
+   per-change terms, the two loops interchanged). *)
 Local Open Scope Z_scope.
-Definition bump (id : string) (d : Z) (m : gmap string Z) : gmap string Z :=
-  <[id := default 0 (m !! id) + d]> m.
 
 Definition connect_usage (k : skind) : string := "connect-mesh-" +:+ kind_str k.
 Definition native_usage : string := "connect-mesh-connect-native".
 Definition billable_usage : string := "billable-services".
+Definition conf_usage (kind : string) : string := "config-entries-" +:+ kind.
 
-(* deltas of one changed services row (connectDeltas, billableServiceInstancesDeltas) *)
-Definition service_deltas (b a : option svc) (m : gmap string Z) : gmap string Z :=
+Definition usage_ids : list string :=
+  ["nodes"; "services"; "service-names"; connect_usage KProxy; connect_usage KMeshGW; connect_usage KTermGW;
+   connect_usage KIngressGW; native_usage; billable_usage;
+   conf_usage "terminating-gateway"; conf_usage "ingress-gateway"; conf_usage "service-defaults";
+   conf_usage "service-resolver"].
+
+Definition ind (b : bool) : Z := if b then 1 else 0.
+Definition is_id (id x : string) : bool := bool_decide (id = x).
+Definition typical (v : svc) : bool := bool_decide (sv_kind v = KTypical).
+Definition is_consul (v : svc) : bool := bool_decide (sv_name v = consul_name).
+
+(* what one changed services row adds to usage id [id] (usageDeltas[tableServices], connectDeltas,
+   billableServiceInstancesDeltas) *)
+Definition svc_contrib (id : string) (b a : option svc) : Z :=
   match b, a with
-  | Some x, Some y =>            (* updated *)
-    let m := bump "services" 0 m in
-    let m := if bool_decide (sv_kind x = KTypical) then m else bump (connect_usage (sv_kind x)) (-1) m in
-    let m := if bool_decide (sv_kind y = KTypical) then m else bump (connect_usage (sv_kind y)) 1 m in
-    let m := if bool_decide (sv_native x = sv_native y) then m
-             else if sv_native x then bump native_usage (-1) m else bump native_usage 1 m in
-    let m := if bool_decide (sv_name x = consul_name) && negb (bool_decide (sv_name y = consul_name))
-                && bool_decide (sv_kind y = KTypical) then bump billable_usage 1 m else m in
-    let m := if negb (bool_decide (sv_name x = consul_name)) && bool_decide (sv_name y = consul_name)
-             then bump billable_usage (-1) m else m in
-    if negb (bool_decide (sv_kind x = KTypical)) && bool_decide (sv_kind y = KTypical) then bump billable_usage 1 m
-    else if bool_decide (sv_kind x = KTypical) && negb (bool_decide (sv_kind y = KTypical)) then bump billable_usage (-1) m
-    else m
-  | None, Some y | Some y, None =>
-    let d := match a with Some _ => 1 | None => -1 end in
-    let m := bump "services" d m in
-    let m := if bool_decide (sv_kind y = KTypical) then m else bump (connect_usage (sv_kind y)) d m in
-    let m := if sv_native y then bump native_usage d m else m in
-    if bool_decide (sv_kind y = KTypical) && negb (bool_decide (sv_name y = consul_name)) then bump billable_usage d m else m
-  | None, None => m
+  | Some x, Some y =>            (* change.Updated() *)
+    ind (is_id id (connect_usage (sv_kind y)) && negb (typical y))
+    - ind (is_id id (connect_usage (sv_kind x)) && negb (typical x))
+    + (if is_id id native_usage
+       then (if bool_decide (sv_native x = sv_native y) then 0 else if sv_native x then -1 else 1) else 0)
+    + (if is_id id billable_usage
+       then ind (is_consul x && negb (is_consul y) && typical y)
+            - ind (negb (is_consul x) && is_consul y)
+            + (if negb (typical x) && typical y then 1 else if typical x && negb (typical y) then -1 else 0)
+       else 0)
+  | None, Some y => ind (is_id id "services") + ind (is_id id (connect_usage (sv_kind y)) && negb (typical y))
+                    + ind (is_id id native_usage && sv_native y)
+                    + ind (is_id id billable_usage && typical y && negb (is_consul y))
+  | Some y, None => - (ind (is_id id "services") + ind (is_id id (connect_usage (sv_kind y)) && negb (typical y))
+                       + ind (is_id id native_usage && sv_native y)
+                       + ind (is_id id billable_usage && typical y && negb (is_consul y)))
+  | None, None => 0
   end.
 
-(* serviceNameChanges *)
-Definition name_deltas (b a : option svc) (m : gmap string Z) : gmap string Z :=
+Definition node_contrib (id : string) (b a : option node) : Z :=
+  if is_id id "nodes" then match b, a with None, Some _ => 1 | Some _, None => -1 | _, _ => 0 end else 0.
+
+Definition conf_contrib (id : string) (b a : option conf) : Z :=
   match b, a with
-  | Some x, Some y =>
-    if bool_decide (sv_name x = sv_name y) then bump (sv_name y) 0 m
-    else bump (sv_name x) (-1) (bump (sv_name y) 1 m)
-  | None, Some y => bump (sv_name y) 1 m
-  | Some x, None => bump (sv_name x) (-1) m
-  | None, None => m
+  | None, Some c => ind (is_id id (conf_usage (conf_kind c)))
+  | Some c, None => - ind (is_id id (conf_usage (conf_kind c)))
+  | _, _ => 0
   end.
 
+(* the rows a transaction changed: (before, after) per primary key *)
 Definition diff_rows {K A} `{Countable K} `{EqDecision A} (before after : gmap K A) : list (option A * option A) :=
   omap (fun k => let b := before !! k in let a := after !! k in
                  if bool_decide (b = a) then None else Some (b, a))
        (elements (dom before ∪ dom after)).
 
-Definition instances_named (name : string) (s : st) : Z :=
-  Z.of_nat (size (filter (fun kv => sv_name kv.2 = name) (services s))).
+Definition sum_changes {A} (f : option A -> option A -> Z) (l : list (option A * option A)) : Z :=
+  foldr (fun '(b, a) acc => acc + f b a) 0 l.
 
-(* updateServiceNameUsage *)
-Definition service_name_usage (after : st) (changes : gmap string Z) (m : gmap string Z) : gmap string Z :=
-  map_fold (fun name delta m' =>
-              let count := instances_named name after in
-              if bool_decide (count = 0) then bump "service-names" (-1) m'
-              else if bool_decide (count = delta) then bump "service-names" 1 m'
-              else m') m changes.
+(* serviceNameChanges[n]: the net number of instances named n the transaction added *)
+Definition name_contrib (n : string) (b a : option svc) : Z :=
+  ind (match a with Some y => bool_decide (sv_name y = n) | None => false end)
+  - ind (match b with Some x => bool_decide (sv_name x = n) | None => false end).
 
-(* writeUsageDeltas: clamped at zero *)
-Definition write_usage (deltas : gmap string Z) (u : gmap string N) : gmap string N :=
-  map_fold (fun id d u' => <[id := Z.to_N (Z.max 0 (Z.of_N (default 0%N (u' !! id)) + d))]> u') u deltas.
+Definition changed_names (l : list (option svc * option svc)) : list string :=
+  remove_dups (mjoin ((fun '(b, a) => (match b with Some x => [sv_name x] | None => [] end) ++
+                                      (match a with Some y => [sv_name y] | None => [] end)) <$> l)).
 
-(* updateUsage *)
+Definition instances_named (name : string) (m : gmap (string * string) svc) : Z :=
+  Z.of_nat (size (filter (fun kv => sv_name kv.2 = name) m)).
+
+(* updateServiceNameUsage: per touched name, compare the instances left with the net change *)
+Definition service_names_delta (after : gmap (string * string) svc) (l : list (option svc * option svc)) : Z :=
+  foldr (fun n acc =>
+           let count := instances_named n after in
+           let delta := sum_changes (name_contrib n) l in
+           acc + (if bool_decide (count = 0) then -1 else if bool_decide (count = delta) then 1 else 0))
+        0 (changed_names l).
+
+Definition usage_delta (before after : st) (id : string) : Z :=
+  let sc := diff_rows (services before) (services after) in
+  sum_changes (node_contrib id) (diff_rows (nodes before) (nodes after))
+  + sum_changes (svc_contrib id) sc
+  + sum_changes (conf_contrib id) (diff_rows (confs before) (confs after))
+  + (if is_id id "service-names" then service_names_delta (services after) sc else 0).
+
+(* updateUsage + writeUsageDeltas (clamped at zero) *)
 Definition commit_usage (before after : st) : st :=
-  let nd := foldr (fun '(b, a) m => bump "nodes" (match b, a with None, Some _ => 1 | Some _, None => -1 | _, _ => 0 end) m)
-                  ∅ (diff_rows (nodes before) (nodes after)) in
-  let sd := foldr (fun '(b, a) m => service_deltas b a m) nd (diff_rows (services before) (services after)) in
-  let names := foldr (fun '(b, a) m => name_deltas b a m) ∅ (diff_rows (services before) (services after)) in
-  let cd := foldr (fun '(b, a) m =>
-                     match b, a with
-                     | None, Some c => bump ("config-entries-" +:+ conf_kind c) 1 m
-                     | Some c, None => bump ("config-entries-" +:+ conf_kind c) (-1) m
-                     | Some _, Some c => bump ("config-entries-" +:+ conf_kind c) 0 m
-                     | None, None => m
-                     end) sd (diff_rows (confs before) (confs after)) in
-  let all := service_name_usage after names cd in
-  after <| usage := write_usage all (usage before) |>.
+  after <| usage := list_to_map ((fun id => (id, Z.to_N (Z.max 0 (Z.of_N (default 0%N (usage before !! id)) + usage_delta before after id))))
+                                 <$> usage_ids) |>.
 Local Close Scope Z_scope.
 
 (* ---------- commands ---------- *)
